@@ -24,7 +24,7 @@ OInit == l = 0 /\ viol = {}
 Step ==
   /\ l < Len(TraceLog) /\ l' = l + 1
   /\ LET e == TraceLog[l + 1] IN
-     /\ viol' = IF e.ev # "Req" THEN viol
+     /\ viol' = IF e.ev \notin {"Req", "ReqMid"} THEN viol
                 ELSE viol \cup {<<l + 1, n>> : n \in {m \in Range(Names) : ~Holds(e, m)}}
      /\ (l' = Len(TraceLog)) => PrintT(<<"OBS", ToJson([consumed |-> l', viol |-> viol'])>>)
 OSpec == OInit /\ [][Step]_ovars
